@@ -358,6 +358,13 @@ class CallsMixin:
             return T("call", "hash", (recv,), ty="int")
         if name == "update" and recv.k == "crcobj":
             return NONE
+        if name == "join" and ((recv.k == "const" and recv.a[0] in (b"", bytearray())) or (recv.k == "bcat" and not recv.a[0])) and args \
+                and args[0].k in ("tuple", "list"):
+            # b"".join(parts): the concatenation of the parts
+            out = bcat()
+            for part in args[0].a[0]:
+                out = bcat_concat(out, as_bcat(part))
+            return out
         if name == "to_bytes" and recv.ty not in ("bytes", "bytearray", "str"):
             # int.to_bytes(length, 'big'): the octets struct.pack of the unsigned format of that width gives (the two differ
             # only in the class raised for a value that does not fit: OverflowError instead of struct.error)
@@ -694,6 +701,13 @@ class CallsMixin:
             return C(struct.calcsize(args[0].a[0]))
         if name == "isinstance":
             return self.do_isinstance(args[0], args[1], env, node)
+        if name == "divmod" and len(args) == 2:
+            return T("tuple", (binop("//", args[0], args[1]), binop("%", args[0], args[1])))
+        if name == "sum" and len(args) >= 1 and args[0].k in ("tuple", "list"):
+            tot = args[1] if len(args) > 1 else C(0)
+            for x_ in args[0].a[0]:
+                tot = binop("+", tot, x_)
+            return tot
         if name in ("max", "min"):
             if len(args) == 2:
                 c = binop(">=" if name == "max" else "<=", args[0], args[1])
